@@ -59,6 +59,32 @@ def install(w):
         return prev_construct(it, cls, args, kwargs, node)
     w.construct_ext = construct_ext
 
+    prev_hasattr = w.hasattr_ext
+
+    def hasattr_ext(it, obj, name, node):
+        """hasattr(EnumClass, <symbolic name>): true for every member name and for the other
+        attributes of the class - which of the non-member names those are is left open."""
+        o = None
+        if isinstance(obj, VAtom):
+            try:
+                o = sym_atom_obj(obj)
+            except KeyError:
+                o = None
+        elif isinstance(obj, VConst):
+            o = obj.obj
+        if isinstance(o, type) and issubclass(o, enum.Enum) and isinstance(name, VStr) and name.lit is None:
+            w.trusted_used.add("hasattr(EnumClass, name): true for member names; for other names unknown")
+            member = sor(*[it.equal(name, VStr(lit=nm), node) for nm in o.__members__])
+            other = z3.Bool(it.namer.fresh("has_other_attr"))
+            return VBool(z3.Or(member, other))
+        return prev_hasattr(it, obj, name, node)
+    w.hasattr_ext = hasattr_ext
+
+    def f_enum_member_name(it, clsname, name):
+        cls = w.resolve_class(clsname.lit)
+        return VBool(sor(*[it.equal(name, VStr(lit=nm), None) for nm in cls.__members__]))
+    w.spec_funcs["enum_member_name"] = f_enum_member_name
+
     prev_contains = w.contains_ext
 
     def contains_ext(it, container, item, node):
@@ -308,6 +334,24 @@ def install(w):
             v.seq = Seq(length=z3.simplify(n), item=lambda i: _VTuple([item(sa, i), item(sb, i)]))
         return v
     w.builtins["bi:zip"] = b_zip
+
+    def p_match(it, f, args, kw, node):
+        """compiled_pattern.match(s): only that it yields a match object or None (which one is left
+        open); TypeError for an argument that is not a string."""
+        from .sym import VDyn
+        x = args[0]
+        if isinstance(x, VDyn):
+            from . import sym as _sym
+            it.guard(_sym.tag(x.t) == _sym.TAGS["str"], TypeError, node, "SAFE-Type")
+        elif not isinstance(x, VStr):
+            raise Unsupported(f"Pattern.match({x!r})")
+        w.trusted_used.add("re.Pattern.match(str): a match object or None; which of the two is not modelled")
+        if it.choose(2, "regex match") == 0:
+            return atom(None)
+        return VOpaque("match")
+    w.builtins.setdefault("Pattern.match", p_match)
+    w.builtins.setdefault("Pattern.fullmatch", p_match)
+    w.builtins.setdefault("Pattern.search", p_match)
 
     def b_attrgetter(it, f, args, kw, node):
         v = args[0]
